@@ -45,15 +45,17 @@ def main():
             except Exception as exc:
                 out.append({'case': n, 'route': route, 'error': '%s: %s' % (type(exc).__name__, str(exc)[:200])})
 
-        def direct(analyse):
+        def direct(analyse, attach=None):
+            attach = analyse if attach is None else attach
             lang = Lang(case['spec'])
             lg = LanguageGraph(copy.deepcopy(case['spec']))
             fac = LanguageClassesFactory(lg)
             am = AModel.from_json(case['amodel'])
             model, objs = build_real(lang, am, fac, Model, AttackerAttachment, explicit_ids=True)
             g = AttackGraph(lg, model)
-            if analyse:
+            if attach:
                 g.attach_attackers()
+            if analyse:
                 calculate_viability_and_necessity(g)
             return g
 
@@ -69,6 +71,13 @@ def main():
 
         emit('direct/bare', lambda: direct(False))
         emit('direct/analysed', lambda: direct(True))
+        # the two remaining combinations of the wrapper's switches, by keyword and by position
+        emit('direct/analysed-not-attached', lambda: direct(True, attach=False))
+        emit('direct/attached-not-analysed', lambda: direct(False, attach=True))
+        emit('wrapper-mar-json-kw/analysed-not-attached', lambda: create_attack_graph(base + '.mar', base + '.model.json', attach_attackers=False))
+        emit('wrapper-mar-json-pos/analysed-not-attached', lambda: create_attack_graph(base + '.mar', base + '.model.json', False, True))
+        emit('wrapper-mar-json-kw/attached-not-analysed', lambda: create_attack_graph(base + '.mar', base + '.model.json', calc_viability_and_necessity=False))
+        emit('wrapper-mar-json-pos/attached-not-analysed', lambda: create_attack_graph(base + '.mar', base + '.model.json', True, False))
         for ext in ('json', 'yml'):
             emit('files-%s/bare' % ext, lambda: files(False, ext))
             emit('files-%s/analysed' % ext, lambda: files(True, ext))
